@@ -153,6 +153,11 @@ class OldRewriter(ast.NodeTransformer):
         self.olds = []
 
     def visit_Call(self, node):
+        if isinstance(node.func, ast.Name) and node.func.id == 'implies' and len(node.args) == 2:
+            # lazy implication: the consequent is only evaluated when the antecedent holds
+            a = self.visit(node.args[0])
+            b = self.visit(node.args[1])
+            return ast.copy_location(ast.BoolOp(ast.Or(), [ast.UnaryOp(ast.Not(), a), b]), node)
         if isinstance(node.func, ast.Name) and node.func.id == 'old':
             name = '__old%d' % len(self.olds)
             self.olds.append((name, compile(ast.Expression(node.args[0]), '<old>', 'eval')))
